@@ -46,7 +46,7 @@ func biasFor(prop string) map[string]int {
 		"PauseGroup": 4, "StartGroup": 5, "CreateBid": 14, "CloseBid": 6, "CreateLease": 12, "WithdrawLease": 8,
 		"CloseLease": 6, "CreateProvider": 5, "UpdateProvider": 2, "SignProviderAttributes": 3,
 		"DeleteProviderAttributes": 1, "BankSend": 2, "CreateCertificate": 0, "RevokeCertificate": 0, "BoundaryDeployment": 0,
-		"fault.wrongsigner": 4, "fault.lowgas": 5, "fault.dup": 3, "fault.crash": 2, "fault.export": 1,
+		"fault.wrongsigner": 4, "fault.lowgas": 5, "fault.dup": 3, "fault.crash": 2, "fault.export": 1, "fault.failing-tail": 6,
 	}
 	switch prop {
 	case "C02":
@@ -137,13 +137,20 @@ func (t *txRunner) deliver(op *Op, txb []byte, dup bool) *core.Violation {
 	if op.Wrong && !dup {
 		r.Count("fault:wrong-signer")
 	}
+	if op.Tail != nil && !dup {
+		r.Count("fault:failing-second-message")
+		if c.OK {
+			// the tail is built to fail; if it ever succeeds the harness's book-keeping would be wrong
+			panic(fmt.Sprintf("harness: failing-tail message %T succeeded", op.Tail))
+		}
+	}
 	if c.Res.Codespace == "sdk" && c.Res.Code == 11 {
 		r.Count("fault:out-of-gas-abort")
 	}
 	if len(DiffRaw(t.snap, after)) > 0 {
 		r.Mutating++
 	}
-	r.Logf("h=%d tx#%d %s signer=%s%s%s -> %s %s", w.Height, t.ntx, describeOp(w, op), op.Signer.Name, flag(op.Wrong, " WRONGSIGNER"),
+	r.Logf("h=%d tx#%d %s%s signer=%s%s%s -> %s %s", w.Height, t.ntx, describeOp(w, op), flag(op.Tail != nil, " + FAILING-SECOND-MSG"), op.Signer.Name, flag(op.Wrong, " WRONGSIGNER"),
 		flag(dup, " DUPLICATE"), outcome, shortLog(c.Res))
 	r.Abstract(op.Kind + "|" + outcome + "|" + after.Abstract())
 	t.L.Apply(c)
@@ -163,7 +170,11 @@ func (t *txRunner) sign(op *Op) ([]byte, bool) {
 	if op.Gas == 0 {
 		op.Gas = 2000000
 	}
-	txb, err := t.w.SignTx([]sdk.Msg{op.Msg}, op.Signer, t.w.Sequence(op.Signer), op.Gas)
+	msgs := []sdk.Msg{op.Msg}
+	if op.Tail != nil {
+		msgs = append(msgs, op.Tail)
+	}
+	txb, err := t.w.SignTx(msgs, op.Signer, t.w.Sequence(op.Signer), op.Gas)
 	if err != nil {
 		t.r.Count("op-unsignable")
 		return nil, false
@@ -300,14 +311,14 @@ func (Engine) Describe(property string) core.Description {
 			"staking/mint/distribution/gov/ibc Begin/EndBlockers (idle)"},
 		Stub:        []string{"Tendermint consensus/p2p/mempool: absent, the simulator is the block proposer"},
 		Assumptions: []string{"fees and gas prices are zero in simulation", "store-level (IAVL/tm-db) disk faults are out of scope", "sampling: held on everything explored, not a proof"},
-		QuickRuns:   320, ThoroughRuns: 24000, QuickBudgetS: 150, ThoroughBudget: 1500,
+		QuickRuns:   480, ThoroughRuns: 30000, QuickBudgetS: 150, ThoroughBudget: 1500,
 		SimTimeUnit: "blocks",
 	}
 	switch property {
 	case "C07":
-		d.QuickRuns, d.ThoroughRuns = 200, 12000
-	case "C17":
 		d.QuickRuns, d.ThoroughRuns = 240, 12000
+	case "C17":
+		d.QuickRuns, d.ThoroughRuns = 320, 16000
 	}
 	d.RequiredProbes = requiredProbes(property)
 	return d
